@@ -177,6 +177,7 @@ pub fn run(out: &mut Out, thorough: bool, seed: u64, _extra: &[String]) {
         let _ = a;
     }
     deep_rescale(out, &mut r, thorough);
+    scale_agreement(out, &mut r);
 }
 
 /// Directed depth programs: square → relinearize → rescale down the whole chain on chains of mixed prime
@@ -240,6 +241,59 @@ fn deep_rescale(out: &mut Out, r: &mut Rng, thorough: bool) {
             else if err <= tol { out.raw(&format!("!OK ckks_slots deep err={:.3e} bound={:.3e} # slots-deep", err, tol)); }
             else { out.raw(&format!("!FAIL ckks_slots deep :: decoded slots differ from the complex shadow program by {:.3e}, worst-case bound {:.3e} (scale 2^{:.1}) # slots-deep", err, tol, rs.scale().log2())); }
             cur = Item { ct: rs, v: nv, eb };
+        }
+    }
+}
+
+/// Directed: "operands whose scales disagree are refused" on the scales that arise NATURALLY — a rescaled product carries scale s^2/q,
+/// a fresh (or switched-down) operand the nominal s; with q a few parts in 10^10 below a power of two the two differ by a relative
+/// 2^-45 .. 2^-27, far more than f64 rounding of the bookkeeping (2^-52) and enough to shift a slot of magnitude 10^6 by more than the
+/// worst-case noise.  Claimed: refusal whenever the relative difference is >= 2^-45; acceptance of bit-identical scales; and, if an
+/// operation on disagreeing scales is computed after all, the decoded slots are compared with the shadow sum against the noise bound.
+fn scale_agreement(out: &mut Out, r: &mut Rng) {
+    for &(lg, pb, sb) in &[(4usize, 40usize, 40i32), (3, 36, 36), (5, 45, 45)] {
+        let n = 1usize << lg; let row = n / 2; let nf = n as f64;
+        let qs = match pick_primes(r, n, &[pb, pb, pb, pb.max(45)]) { Some(v) => v, None => continue };
+        let s = match make(SchemeType::CKKS, n, &qs, 0, true, None) { Some(s) => s, None => continue };
+        let ev = &s.evaluator; let enc = CKKSEncoder::new(s.ctx.clone());
+        let relin = s.keygen.create_relin_keys(false);
+        let scale = 2f64.powi(sb);
+        let small: Vec<Complex64> = (0..row).map(|_| Complex64::new(((r.below(9) as f64) - 4.0) / 2.0, 0.0)).collect();
+        let big: Vec<Complex64> = (0..row).map(|_| Complex64::new(1.0e6 + r.below(1000) as f64, -(7.0e5 + r.below(1000) as f64))).collect();
+        let step = std::panic::catch_unwind(std::panic::AssertUnwindSafe(|| {
+            let x = s.encryptor.encrypt_new(&enc.encode_c64_array_new(&small, None, scale));
+            let y = s.encryptor.encrypt_new(&enc.encode_c64_array_new(&small, None, scale));
+            let p = ev.rescale_to_next_new(&ev.relinearize_new(&ev.multiply_new(&x, &y), &relin));
+            let p2 = ev.rescale_to_next_new(&ev.relinearize_new(&ev.multiply_new(&y, &x), &relin));
+            let z = ev.mod_switch_to_next_new(&s.encryptor.encrypt_new(&enc.encode_c64_array_new(&big, None, scale)));
+            let zp = enc.encode_c64_array_new(&big, Some(*p.parms_id()), scale);
+            (p, p2, z, zp) }));
+        let (p, p2, z, zp) = match step { Ok(v) => v, Err(_) => { out.raw("!NOTE ckks_scale_agree parameter set skipped (setup refused)"); continue } };
+        let (s1, s2) = (p.scale(), z.scale());
+        let rel = ((s1 - s2) / s2).abs();
+        let cls = format!("scale-agree-n{}-b{}", n, pb);
+        // bit-identical scales must be accepted
+        if p.scale().to_bits() == p2.scale().to_bits() {
+            if std::panic::catch_unwind(std::panic::AssertUnwindSafe(|| { let _ = ev.add_new(&p, &p2); let _ = ev.sub_new(&p, &p2); })).is_ok() { out.raw(&format!("!OK ckks_scale_agree equal-scales add/sub accepted # {}", cls)); }
+            else { out.raw(&format!("!FAIL ckks_scale_agree equal-scales :: add/sub of two ciphertexts with bit-identical scales refused # {}", cls)); }
+        }
+        if !(rel >= 2f64.powi(-45)) { out.raw(&format!("!NOTE ckks_scale_agree rescaled-vs-nominal scales differ by {:.3e} relative only: no claim", rel)); continue; }
+        let prod: Vec<Complex64> = small.iter().map(|a| a * a).collect();
+        let tol = 64.0 * nf * nf * (21.0 * (2.0 * nf + 1.0) + 1.0) / scale.min(s1) * 8.0 + 1e-3 * 0.0;
+        type Op<'a> = (&'static str, Box<dyn Fn() -> Ciphertext + 'a>, bool);
+        let ops: Vec<Op> = vec![
+            ("add(rescaled,nominal)", Box::new(|| ev.add_new(&p, &z)), false), ("add(nominal,rescaled)", Box::new(|| ev.add_new(&z, &p)), false),
+            ("sub(rescaled,nominal)", Box::new(|| ev.sub_new(&p, &z)), true), ("add_plain(rescaled,nominal)", Box::new(|| ev.add_plain_new(&p, &zp)), false),
+            ("sub_plain(rescaled,nominal)", Box::new(|| ev.sub_plain_new(&p, &zp)), true)];
+        for (nm, f, sub) in ops {
+            match std::panic::catch_unwind(std::panic::AssertUnwindSafe(|| f())) {
+                Err(_) => out.raw(&format!("!OK ckks_scale_agree {} refused (relative scale difference {:.2e}) # {}", nm, rel, cls)),
+                Ok(c) => {
+                    let dec = enc.decode_new(&s.decryptor.decrypt_new(&c));
+                    let err = (0..row).map(|i| { let want = if sub { prod[i] - big[i] } else { prod[i] + big[i] }; (dec[i] - want).norm() }).fold(0.0, f64::max);
+                    out.raw(&format!("!FAIL ckks_scale_agree {} :: operands whose scales disagree by {:.3e} relative ({} vs {}) were combined instead of refused; decoded slots off by {:.3e} (noise bound {:.3e}) # {}",
+                        nm, rel, s1.to_bits(), s2.to_bits(), err, tol, cls)); }
+            }
         }
     }
 }
